@@ -259,15 +259,16 @@ def run_property(prop_id, tier, seed, jobs, only=None):
         },
         "assumptions": list(getattr(mod, "ASSUMPTIONS", [])),
         "wall_s": round(time.time() - t0, 2),
-        "violations": n_viol_total - n_known,
+        "violations": len(new),
     }
+    evidence["coverage"]["violating_executions_including_known_findings"] = n_viol_total
     os.makedirs(os.path.join(VERIF, "evidence"), exist_ok=True)
     with open(os.path.join(VERIF, "evidence", prop_id + ".json"), "w") as f:
         json.dump(evidence, f, indent=1, default=_json_default)
     print(
         "%s tier=%s seed=%d executions=%d states=%d transitions=%d nontrivial=%d violations=%d known=%d wall=%.1fs"
         % (prop_id, tier, seed, total("executions"), evidence["coverage"]["states"], total("edges"),
-           total("nontrivial"), n_viol_total - n_known, n_known, time.time() - t0)
+           total("nontrivial"), len(new), n_known, time.time() - t0)
     )
     return exit_code
 
